@@ -118,8 +118,17 @@ Definition ok (s : sst) : verdict := (s, []).
 Definition blame (s : sst) (c : clause) : verdict := (s, [c]).
 
 (* insertion-type call in normal mode: expected result [exp], new contents [m'] *)
+(* every automatic doubling from hashpower h requires load factor >= minimum at h (with the elements present
+   before the call); if the call ended at hashpower H > h0 its last doubling was at H-1 *)
+Definition grew_below_minimum (pre post : obs) : bool :=
+  (o_hp pre <? o_hp post) && negb (o_mlfd pre =? 0) &&
+  (o_size pre * o_mlfd pre <? o_mlfn pre * (N.shiftl 1 (o_hp post - 1) * spb_)).
+
 Definition judge_insertish (s : sst) (a : nat) (t : stab) (pre post : obs) (r : out) (exp : out) (m' : smap)
   (cl : clause) : verdict :=
+  if grew_below_minimum pre post then
+    (if out_eqb r exp then blame (inval (put_m s a t m')) C10_limit else blame (inval s) C10_limit)
+  else
   if out_eqb r exp then ok (inval (put_m s a t m'))
   else if is_exn r EMaxHashpower then
     if maxhp_allowed pre post None then ok (inval s) else blame (inval s) C10_limit
@@ -328,6 +337,7 @@ Definition judge_op (s : sst) (a : nat) (o : op) (r : out) (pre post : obs) : ve
     | OLock => if out_eqb r [RNone] then ok (reset_its_s (put_st s a (Some {| st_m := m; st_act := true; st_moved := st_moved t |}))) else blame s C02_result
     | OUnlock => if out_eqb r [RNone] then ok (reset_its_s (put_st s a (Some {| st_m := m; st_act := false; st_moved := st_moved t |}))) else blame s C02_result
     | LInsert k v =>
+      if grew_below_minimum pre post then blame (lose s a t) C10_limit else
       match r with
       | [RPos b sl; RBool ins] =>
         let exp_ins := match sfind k m with Some _ => false | None => true end in
@@ -339,6 +349,7 @@ Definition judge_op (s : sst) (a : nat) (o : op) (r : out) (pre post : obs) : ve
         else blame (inval s) C09_iter
       end
     | LIdx k =>
+      if grew_below_minimum pre post then blame (lose s a t) C10_limit else
       match sfind k m with
       | Some v => if out_eqb r [RInt v] then ok (inval s) else
                   if is_exn r EMaxHashpower || is_exn r ELoadFactorTooLow then ok (inval s) else blame (inval s) C09_iter
